@@ -94,10 +94,24 @@ func (ss *vSession) deliverDoc(vb int, kind int, ackNow bool) {
 
 // deliverReserved feeds a mutation whose key lies under a library-reserved prefix.
 func (ss *vSession) deliverReserved(vb int, key []byte) *models.Offset {
+	return ss.deliverReservedKind(vb, key, 0)
+}
+
+// deliverReservedKind: the document event is a mutation (0), a deletion (1) or an
+// expiration (2) - heart-beat documents and transaction records carry a TTL.
+func (ss *vSession) deliverReservedKind(vb int, key []byte, kind int) *models.Offset {
 	o := ss.nextOffset(vb)
 	before := len(ss.fc.consumed)
-	ss.s.listen(models.ListenerArgs{Event: models.DcpMutation{
-		DcpMutation: &gocbcore.DcpMutation{VbID: uint16(vb), SeqNo: o.SeqNo, Key: key}, Offset: o}})
+	var ev interface{}
+	switch kind {
+	case 0:
+		ev = models.DcpMutation{DcpMutation: &gocbcore.DcpMutation{VbID: uint16(vb), SeqNo: o.SeqNo, Key: key}, Offset: o}
+	case 1:
+		ev = models.DcpDeletion{DcpDeletion: &gocbcore.DcpDeletion{VbID: uint16(vb), SeqNo: o.SeqNo, Key: key}, Offset: o}
+	default:
+		ev = models.DcpExpiration{DcpExpiration: &gocbcore.DcpExpiration{VbID: uint16(vb), SeqNo: o.SeqNo, Key: key}, Offset: o}
+	}
+	ss.s.listen(models.ListenerArgs{Event: ev})
 	assert(len(ss.fc.consumed) == before, "reserved-key event is not shown to the consumer")
 	ss.settled[vb] = append(ss.settled[vb], o)
 	return o
